@@ -115,4 +115,17 @@ CHECKS = {
             "assumptions": ["components that share no Require/Add/Remove relation are explored separately (no relation crosses them, so their reachable sets multiply)", "packages main / internal / build-constrained are not importable and are listed as skipped", "schema variables are found by name suffix (Schema/States/Groups) or an explicit am.Schema type"],
         },
     },
+    "C13": {
+        "pkg": "harness/c13",
+        "instr": {"features": ["sync", "go", "chan", "detselect"], "pkgs": ["pkg/machine", "pkg/states", "pkg/helpers"]},
+        "sched": True,
+        "shards": {"quick": 8, "thorough": 16},
+        "gomaxprocs": 2,
+        "budget_s": {"quick": 200, "thorough": 1800},
+        "meta": {
+            "rule": "stateless model checking: 9 drivers (Dispose, with Start+Eval, twice, concurrent, parent-ctx cancel with Start, ctx cancel with Eval, from inside a handler, helpers.Dispose with the Disposed mixin, DisposeForce) x every schedule with <= bound deviations of {mutating thread, optional Eval thread, disposing thread(s)} against a workload with outstanding subscriptions; distinct_nontrivial = distinct end observations",
+            "nontrivial_set": "outcomes",
+            "assumptions": ["fake time: DisposeTimeout and the disposal sleeps elapse only when nothing else can run", "DisposeForce: only release and no-deadlock are demanded (documented to cause panics)", "instrumenter + shims trusted; pkg/states and pkg/helpers are instrumented too"],
+        },
+    },
 }
